@@ -78,7 +78,8 @@ def positive_for(pdu: bytes, data: bytes | None, iocp: bool) -> bytes:
     if sid == 0x3E:
         return bytes([0x7E, pdu[1] & 0x7F])
     if sid == 0x22:
-        return bytes([0x62]) + pdu[1:3] + (DEFAULT_VIN if data is None else data)
+        # ISO 14229-1: the data record of a ReadDataByIdentifier response has at least one byte
+        return bytes([0x62]) + pdu[1:3] + (data or DEFAULT_VIN)
     if sid == 0x2C:
         return bytes([0x6C]) + pdu[1:4]
     return bytes([sid + 0x40])
